@@ -11,9 +11,10 @@
    width and height are not zero.  `pix_bytes img` = the RGBA bytes of `img.iter()`.
    `lockstep st s ops`: the terminal reads the bytes of every call of a history; before a call
    that delivers an error response for id it has lost image id (`pre_store`). *)
-From Coq Require Import List Arith NArith Bool.
+From Coq Require Import List Arith NArith Bool Lia.
 From SNT Require Import Surface.Shape Surface.ShapeProofs Image.Kitty Image.KittySpec
-  Image.KittyParse Image.KittyProofs Image.KittyHistory.
+  Image.KittyParse Image.KittyProofs Image.KittyHistory Corr.C11Corr Image.KittyCheck
+  Image.Fnv Image.KittyPigeon.
 Import ListNotations.
 Local Open Scope N_scope.
 
@@ -88,11 +89,12 @@ Theorem C11_id_range : forall (hash : N) (pos : N * N),
 Proof. intros hash pos. split; [apply image_id_range|apply placement_id_range]. Qed.
 
 (* for coordinates below 65536 the position is recovered from the placement id and distinct
-   positions have distinct ids -- except for the pair (0,0) / (65535,65535), see C11_pairing_corner *)
+   positions have distinct ids -- except that the very last position (65535,65535) shares the id
+   of (65534,65535), see C11_pairing_corner_refuted and C11_pid_pigeonhole *)
 Theorem C11_pairing_ids : forall p1 p2 : N * N, in_dom p1 -> in_dom p2 ->
   (p1 <> (65535, 65535) -> placement_to_pos (placement_id p1) = p1) /\
   (placement_id p1 = placement_id p2 ->
-   p1 = p2 \/ (p1 = (0, 0) /\ p2 = (65535, 65535)) \/ (p1 = (65535, 65535) /\ p2 = (0, 0))).
+   p1 = p2 \/ (p1 = (65534, 65535) /\ p2 = (65535, 65535)) \/ (p1 = (65535, 65535) /\ p2 = (65534, 65535))).
 Proof.
   intros p1 p2 H1 H2. split; [apply placement_inverse, H1|apply placement_inj; assumption].
 Qed.
@@ -124,18 +126,60 @@ Theorem C11_pairing : forall (st : kitty) (s : tstore) (img : image) (hash : N) 
   ~ In (image_id hash, placement_id pos) (places_of s') /\
   (forall x, In x (places_of s) -> x <> (image_id hash, placement_id pos) -> In x (places_of s')) /\
   (forall pos', in_dom pos' -> pos' <> pos ->
-     ~ (pos = (0, 0) /\ pos' = (65535, 65535)) -> ~ (pos = (65535, 65535) /\ pos' = (0, 0)) ->
+     ~ (pos = (65534, 65535) /\ pos' = (65535, 65535)) -> ~ (pos = (65535, 65535) /\ pos' = (65534, 65535)) ->
      In (image_id hash, placement_id pos') (places_of s) ->
      In (image_id hash, placement_id pos') (places_of s')).
 Proof. exact erase_exact. Qed.
 
-(* known finding (class pid-corner): the two corner positions share placement id 1.  There are
-   2^32 positions with coordinates below 65536 and only 2^32 - 1 valid ids, so some pair has to. *)
+(* known finding (class pid-corner): the last two positions share the largest placement id.  There
+   are 2^32 positions with coordinates below 65536 and only 2^32 - 1 valid ids, so some pair has to. *)
 Theorem C11_pairing_corner_refuted : exists p1 p2 : N * N,
   in_dom p1 /\ in_dom p2 /\ p1 <> p2 /\ placement_id p1 = placement_id p2.
 Proof.
-  exists (0, 0), (65535, 65535). repeat split; try reflexivity. discriminate.
+  exists (65534, 65535), (65535, 65535). repeat split; try reflexivity. discriminate.
 Qed.
+
+(* the collision is forced: whatever numbering of positions by valid ids one picks, two distinct
+   positions with coordinates below 65536 get the same id (2^32 positions, 2^32 - 1 ids) *)
+Theorem C11_pid_pigeonhole : forall f : N * N -> N,
+  (forall p, in_dom p -> 1 <= f p <= 4294967295) ->
+  exists p1 p2, in_dom p1 /\ in_dom p2 /\ p1 <> p2 /\ f p1 = f p2.
+Proof. exact pid_pigeonhole. Qed.
+
+(* same content -> same id: the model of Surface::hash (Image/Fnv.v: fnv-1a over height, width and
+   the pixels in row-major order; compared with the crate's value on every case) reads nothing but
+   height, width and pixel bytes -- not the backing vector, offsets or strides *)
+Theorem C11_same_content_same_id : forall img1 img2 : image,
+  im_height img1 = im_height img2 -> im_width img1 = im_width img2 -> pix_bytes img1 = pix_bytes img2 ->
+  image_id (surface_hash img1) = image_id (surface_hash img2).
+Proof. intros img1 img2 Hh Hw Hp. f_equal. exact (same_content_same_hash img1 img2 Hh Hw Hp). Qed.
+
+(* the two identifier defects of the unfixed code, on the model side (formulas before the fix:
+   id = hash mod 4294967295, placement id = row mod 65536 + (col mod 65536) * 65536): the 1x1 image
+   RGBA(178,12,127,104) had image id 0 and position (0,0) had placement id 0 = "unspecified" *)
+Theorem C11_before_fix_refuted :
+  surface_hash (mkImage [(178, 12, 127, 104)] (of_size 1 1)) mod 4294967295 = 0 /\
+  (fst (0, 0) mod 65536) + (snd (0, 0) mod 65536) * 65536 = 0.
+Proof. vm_compute. split; reflexivity. Qed.
+
+(* ------------------------------------------------------------------------------------------ *)
+(* (all of it, through the predicate of the check)  `c11_code` is the property predicate that the
+   correspondence check evaluates on the IMPLEMENTATION's bytes (Image/KittySpec.v check_history:
+   parse every call, run the terminal store, no protocol error, content <-> id bijection, transmit
+   exactly when not transmitted since the last error response and then exactly the expected
+   pixels with s, v, placements = old + {(id, pid)}, pid <> 0, (id, position) <-> pid functional
+   and injective, erase removes exactly that placement, a re-transmitted image is re-placed where
+   draw had put it).  The model satisfies it on every case: any images (well formed, content
+   index <-> image id one-to-one, i.e. no hash collision), any history of draw / erase / handle
+   calls, positions with coordinates below 65536 other than the wrap-around corner. *)
+Theorem C11_model_meets_predicate :
+  forall (quiet : bool) (imgs : list c11_img) (contents : list content) (ops : list c11_op),
+  (forall img h c, In (img, h, c) imgs -> image_wf img /\ nth_error contents c = Some (content_rec img)) ->
+  (forall i1 h1 c1 i2 h2 c2, In (i1, h1, c1) imgs -> In (i2, h2, c2) imgs ->
+     (c1 = c2 <-> image_id h1 = image_id h2)) ->
+  Forall (op_ok imgs) ops ->
+  c11_code (Case quiet imgs contents ops (c11_model (Case quiet imgs contents ops []))) = 0.
+Proof. exact model_meets_predicate. Qed.
 
 (* ------------------------------------------------------------------------------------------ *)
 Check C11_payload : forall (img : image) (hash : N) (pos : N * N) (st : kitty),
@@ -162,9 +206,17 @@ Check C11_pairing : forall (st : kitty) (s : tstore) (img : image) (hash : N) (p
   ~ In (image_id hash, placement_id pos) (places_of s') /\
   (forall x, In x (places_of s) -> x <> (image_id hash, placement_id pos) -> In x (places_of s')) /\
   (forall pos', in_dom pos' -> pos' <> pos ->
-     ~ (pos = (0, 0) /\ pos' = (65535, 65535)) -> ~ (pos = (65535, 65535) /\ pos' = (0, 0)) ->
+     ~ (pos = (65534, 65535) /\ pos' = (65535, 65535)) -> ~ (pos = (65535, 65535) /\ pos' = (65534, 65535)) ->
      In (image_id hash, placement_id pos') (places_of s) ->
      In (image_id hash, placement_id pos') (places_of s')).
+
+Check C11_model_meets_predicate :
+  forall (quiet : bool) (imgs : list c11_img) (contents : list content) (ops : list c11_op),
+  (forall img h c, In (img, h, c) imgs -> image_wf img /\ nth_error contents c = Some (content_rec img)) ->
+  (forall i1 h1 c1 i2 h2 c2, In (i1, h1, c1) imgs -> In (i2, h2, c2) imgs ->
+     (c1 = c2 <-> image_id h1 = image_id h2)) ->
+  Forall (op_ok imgs) ops ->
+  c11_code (Case quiet imgs contents ops (c11_model (Case quiet imgs contents ops []))) = 0.
 
 (* ------------------------------------------------------------------------------------------ *)
 (* non-vacuity *)
@@ -208,3 +260,27 @@ Example C11_once_nonvacuous :
      [(78, 458758); (900477109, 458758)];
      [(900477109, 65538); (78, 458758); (900477109, 458758)]].
 Proof. vm_compute. split; reflexivity. Qed.
+
+(* a case meeting the hypotheses of C11_model_meets_predicate: two images (one a strided view),
+   draws, erases, an error response with and without placement, an OK response, another event *)
+Example C11_model_meets_predicate_nonvacuous :
+  let imgs : list c11_img := [(ex_img, ex_hash, 0%nat); (ex_view, 77, 1%nat)] in
+  let contents := [content_rec ex_img; content_rec ex_view] in
+  let ops := [CDraw 0 (0, 0); CDraw 1 (0, 0); CDraw 0 (5, 7); CErase 0 (Some (0, 0));
+              CResp 900477109 (Some 458758) true; CResp 78 None true; CDraw 1 (65535, 65534);
+              CResp 78 None false; COther; CErase 1 None] in
+  (forall img h c, In (img, h, c) imgs -> image_wf img /\ nth_error contents c = Some (content_rec img)) /\
+  (forall i1 h1 c1 i2 h2 c2, In (i1, h1, c1) imgs -> In (i2, h2, c2) imgs ->
+     (c1 = c2 <-> image_id h1 = image_id h2)) /\
+  Forall (op_ok imgs) ops /\
+  length (c11_model (Case true imgs contents ops [])) = 10%nat.
+Proof.
+  destruct C11_wf_nonvacuous as (W1 & _ & W2 & _ & _).
+  cbv zeta. split; [|split; [|split]].
+  - intros img h c Hin. destruct Hin as [E|[E|[]]]; inversion E; subst; split; try assumption; reflexivity.
+  - intros i1 h1 c1 i2 h2 c2 H1 H2.
+    destruct H1 as [E1|[E1|[]]], H2 as [E2|[E2|[]]]; inversion E1; inversion E2; subst;
+      split; intros X; try reflexivity; try discriminate X; vm_compute in X; discriminate X.
+  - repeat constructor; unfold pos_ok, in_dom; cbn [fst snd length]; repeat split; try lia; try discriminate.
+  - vm_compute. reflexivity.
+Qed.
